@@ -374,11 +374,23 @@ def c02_search(ctx):
         small = [i for i, f in enumerate(d["Fields"]) if f["BitLength"] <= (16 if ctx.thorough else 8) and "Match" not in f
                  and f["FieldType"] not in ("RESERVED",)]
         if small:
+            # thorough: every raw value of every field of <= 10 bits and of two wider (<= 16 bit) fields per
+            # definition; 400 raw values (both ends + random) of each remaining one. (The unbounded statement is
+            # the theorem C02_roundtrip; this sweep exercises the REAL code.)
+            wide = [i for i in small if d["Fields"][i]["BitLength"] > 10]
+            full_wide = set(rng.sample(wide, min(2, len(wide))))
             for i in (small if ctx.thorough else [rng.choice(small)]):
                 bg = PL.compose(d, rng)
                 f = d["Fields"][i]
-                mask = ((1 << f["BitLength"]) - 1) << f["BitOffset"]
-                for rawv in range(1 << f["BitLength"]):
+                n = f["BitLength"]
+                mask = ((1 << n) - 1) << f["BitOffset"]
+                if n <= 10 or i in full_wide or not ctx.thorough:
+                    raws = range(1 << n)
+                else:
+                    top = 1 << n
+                    raws = sorted(set(list(range(64)) + list(range(top - 64, top)) + list(range(top // 2 - 32, top // 2 + 32))
+                                      + [rng.randrange(top) for _ in range(208)]))
+                for rawv in raws:
                     pls.append((f"f{i}:all", (bg & ~mask) | (rawv << f["BitOffset"])))
         for label, p in pls:
             w = c02_check(d, p, dec, enc)
